@@ -23,6 +23,7 @@ func init() { Registry["C11"] = &Prop{Gen: genC11, New: func() Executor { return
 type c11ex struct {
 	base
 	c *world.Chan
+	o world.Options
 }
 
 // methodTable renders the reflect router's table of the harness token: name:fn:kind:auth
@@ -183,7 +184,23 @@ func (e *c11ex) Exec(op string) string {
 			wd.Robot.SKIHex = wd.Robot.HashHex // configure the certificate hash instead of the key id
 		}
 		e.c = wd.AddChannel("VT", o)
+		e.o = o
 		wd.Robot.SKIHex = save
+		return "ok"
+	case "readmin":
+		// the channel is initialised again (same instance, same options) with another admin address
+		if len(w) != 2 || e.c == nil {
+			return "bad-op"
+		}
+		orig := wd.AdminU
+		switch w[1] {
+		case "issuer":
+			wd.AdminU = wd.Issuer
+		case "u0":
+			wd.AdminU = wd.Users[2]
+		}
+		e.c.Reconfigure(e.o)
+		wd.AdminU = orig
 		return "ok"
 	case "init":
 		if len(w) != 2 || e.c == nil {
@@ -353,8 +370,20 @@ func genC11(c *Cfg, emit func([]string)) {
 				}
 			}
 		}
+		// the admin address changes by a later initialisation of the same instance: the admin-only
+		// methods follow the configuration in force (first an admin-only call, so that anything the
+		// instance remembers about the admin is there), back and forth
+		for _, adm := range []string{"issuer", "admin", "u0"} {
+			h = append(h, "readmin "+adm)
+			for _, fn := range []string{"lockTokenBalance", "lockAllowedBalance", "unlockTokenBalance"} {
+				for _, s := range senders {
+					h = append(h, fmt.Sprintf("call client batch %s %s", fn, s))
+					total++
+				}
+			}
+		}
 		emit(h)
 	}
-	c.Rule = fmt.Sprintf("%d configurations (subsets of a 6-function disabled pool, swap and multi-swap switches, with and without an options section, robot configured by key id or by certificate hash) x { 9 entry points x 5 caller identities (robot, admin-OU cert, ordinary cert, no creator, garbage creator); 23 functions (scripted tx/nbtx/query bodies with and without sender, transfer, swap and multi-swap methods, the 6 admin-only methods, unknown function) x routes (direct or batched submission+execution, task execution) x signed senders (admin, issuer, stranger) }: %d calls; plus Init under every identity and under certificates whose organisational units are near-misses of 'admin' (substrings, superstrings, other letter case, several units). Observed: refusal class / pass, and the business-ledger diff on refusal. non-trivial = every configuration history; distinct = sha256", nCfg, total)
+	c.Rule = fmt.Sprintf("%d configurations (subsets of a 6-function disabled pool, swap and multi-swap switches, with and without an options section, robot configured by key id or by certificate hash) x { 9 entry points x 5 caller identities (robot, admin-OU cert, ordinary cert, no creator, garbage creator); 23 functions (scripted tx/nbtx/query bodies with and without sender, transfer, swap and multi-swap methods, the 6 admin-only methods, unknown function) x routes (direct or batched submission+execution, task execution) x signed senders (admin, issuer, stranger) }: %d calls; plus re-initialisations of the same instance with another admin address followed by the admin-only methods under the old and the new admin; plus Init under every identity and under certificates whose organisational units are near-misses of 'admin' (substrings, superstrings, other letter case, several units). Observed: refusal class / pass, and the business-ledger diff on refusal. non-trivial = every configuration history; distinct = sha256", nCfg, total)
 	c.Extra = map[string]any{"configurations": nCfg, "calls": total}
 }
